@@ -202,6 +202,8 @@ def BodySites(body, path):
         out += BodySites(c['r']['body'], here + ('aggbody',))
     elif k == 'neg':
       out.append(('neg_as_max_is_null', here))
+      if len(c['body']) >= 2 and c['body'][-1]['k'] == 'neg':
+        out.append(('neg_as_implication', here))
       out += BodySites(c['body'], here + ('negbody',))
     elif k == 'inc':
       if c['r'].get('k') == 'list' and c['r']['items']:
@@ -264,6 +266,8 @@ def ApplyForm(prog, kind, site, rng):
     else:
       c['r']['form'] = choice
       c.pop('form', None)
+  elif kind == 'neg_as_implication':
+    parent[idx]['form'] = 'implication'
   elif kind == 'neg_as_max_is_null':
     parent[idx]['form'] = 'max_is_null'
   elif kind == 'in_as_alternatives':
@@ -346,3 +350,75 @@ def LiftPcalls(prog):
         new_body.append(c)
       rule['body'] = new_body + extra
   return p if changed[0] else None
+
+
+def ShortNamed(prog, rng):
+  """`a:` <-> `a: a`.  Renames, per rule, a variable that is the whole value of
+  a named argument `f: v` to `f` (when `f` is not yet a variable of the rule
+  and only one variable competes for the name) and prints the shorthand."""
+  p = copy.deepcopy(prog)
+  changed = False
+  for pred in p['preds']:
+    for rule in pred['rules']:
+      names = gen_all_vars(rule)
+      cands = {}
+
+      def Collect(node, cands=cands):
+        for key in ('args', 'head'):
+          pass
+      slots = []
+      for h in rule['head']:
+        slots.append(h)
+
+      def Slots(node, slots=slots):
+        if node.get('k') in ('atom', 'pcall'):
+          slots.extend(node['args'])
+      Walk(rule['body'], Slots)
+      Walk([h['e'] for h in rule['head']], Slots)
+      by_field = {}
+      for a in slots:
+        f = a['f']
+        if ir.IsPositional(f) or f == 'logica_value' or a.get('agg'):
+          continue
+        if a['e'].get('k') == 'var':
+          by_field.setdefault(f, set()).add(a['e']['name'])
+      ren = {}
+      for f, vs in sorted(by_field.items()):
+        if len(vs) == 1 and f not in names and f not in ren.values():
+          v = list(vs)[0]
+          if v not in ren:
+            ren[v] = f
+      if not ren:
+        continue
+
+      def Fix(node, ren=ren):
+        if node.get('k') == 'var' and node['name'] in ren:
+          node['name'] = ren[node['name']]
+      Walk(rule, Fix)
+      for a in slots:
+        if (a['e'].get('k') == 'var' and a['e']['name'] == a['f'] and
+            not a.get('agg')):
+          a['form'] = 'short'
+          changed = True
+  return p if changed else None
+
+
+def SameHeadRules(prog, rng):
+  """Gives one multi-rule predicate syntactically equal heads (so that
+  `several rules <-> one rule with |` applies): the head of the first rule is
+  reused with its variables re-bound in the other rules by renaming."""
+  p = copy.deepcopy(prog)
+  for pred in p['preds']:
+    rules = pred['rules']
+    if pred['inline'] or len(rules) < 2 or not all(r['body'] for r in rules):
+      continue
+    # make every rule a copy of the first with a different extra filter
+    first = rules[0]
+    new_rules = [first]
+    for r in rules[1:]:
+      c = copy.deepcopy(first)
+      rng.shuffle(c['body'])
+      new_rules.append(c)
+    pred['rules'] = new_rules
+    break
+  return p
